@@ -18,6 +18,9 @@ pub struct SQ {
     pub a_cond: Option<String>,
     pub b_cond: Option<String>,
     pub limit: Option<u32>,
+    /// order the events by the payload time field `at` (USING TIME at) instead of the core timestamp
+    #[serde(default)]
+    pub using_at: bool,
 }
 
 #[derive(Clone, Debug, Serialize, Deserialize)]
@@ -32,14 +35,17 @@ pub struct Case {
 fn seq_types() -> Vec<TypeDef> {
     let f = |n: &str, ty: FT| FieldDef { name: n.into(), alias: aliases(&ty)[0].to_string(), ty, opt: false };
     vec![
-        TypeDef { name: "pv".into(), fields: vec![f("u", FT::Int), f("p", FT::Str)] },
-        TypeDef { name: "oc".into(), fields: vec![f("u", FT::Int), f("st", FT::Str)] },
+        TypeDef { name: "pv".into(), fields: vec![f("u", FT::Int), f("p", FT::Str), f("at", FT::Datetime)] },
+        TypeDef { name: "oc".into(), fields: vec![f("u", FT::Int), f("st", FT::Str), f("at", FT::Datetime)] },
     ]
 }
 
 impl SQ {
     fn print(&self) -> String {
         let mut s = if self.preceded { "QUERY oc PRECEDED BY pv LINKED BY u".to_string() } else { "QUERY pv FOLLOWED BY oc LINKED BY u".to_string() };
+        if self.using_at {
+            s.push_str(" USING TIME at");
+        }
         let mut conds = vec![];
         if let Some(p) = &self.a_cond {
             conds.push(format!("pv.p = \"{}\"", p));
@@ -69,8 +75,10 @@ struct Excl {
 fn case_strategy(tier: Tier, ex: Excl) -> BoxedStrategy<Case> {
     (cfg_strategy(3), 2usize..=4)
         .prop_flat_map(move |(cfg, n_ctx)| {
-            let ev = (0usize..2, 0..n_ctx, 0i64..4, prop::sample::select(vec!["/a", "/b"]), prop::sample::select(vec!["done", "bad"])).prop_map(|(ty, ctx, u, p, st)| {
-                if ty == 0 { Ev { ty, ctx, vals: vec![json!(u), json!(p)] } } else { Ev { ty, ctx, vals: vec![json!(u), json!(st)] } }
+            // `at`: a payload time on a small grid, unrelated to the order of arrival
+            let ev = (0usize..2, 0..n_ctx, 0i64..4, prop::sample::select(vec!["/a", "/b"]), prop::sample::select(vec!["done", "bad"]), 0i64..8).prop_map(|(ty, ctx, u, p, st, at)| {
+                let at = json!(1_700_000_000i64 + at * 1000);
+                if ty == 0 { Ev { ty, ctx, vals: vec![json!(u), json!(p), at] } } else { Ev { ty, ctx, vals: vec![json!(u), json!(st), at] } }
             });
             let op = prop_oneof![
                 30 => ev.prop_map(Op::Store),
@@ -86,8 +94,9 @@ fn case_strategy(tier: Tier, ex: Excl) -> BoxedStrategy<Case> {
                 opt_w(if ex.conds { 0.0 } else { 0.4 }, prop::sample::select(vec!["/a", "/b"])),
                 opt_w(if ex.conds { 0.0 } else { 0.5 }, prop::sample::select(vec!["done", "bad"])),
                 opt_w(if ex.limit { 0.0 } else { 0.3 }, 1u32..4),
+                prop::bool::weighted(0.3),
             )
-                .prop_map(move |(preceded, a, b, limit)| SQ { preceded, a_cond: a.map(|s| s.to_string()), b_cond: b.map(|s| s.to_string()), limit });
+                .prop_map(move |(preceded, a, b, limit, using_at)| SQ { preceded, a_cond: a.map(|s| s.to_string()), b_cond: b.map(|s| s.to_string()), limit, using_at });
             (Just(cfg), Just(n_ctx), ops, tail, prop::collection::vec(q, 4..=tier.pick(10, 16)))
         })
         .prop_map(|(cfg, n_ctx, ops, tail, queries)| Case { cfg, n_ctx, ops, tail, queries })
@@ -106,7 +115,22 @@ fn run_case(c: &Case, rep: &mut CaseReport) -> Verdict {
             return Verdict::Discard("start failed".into());
         }
     };
-    for op in &c.ops {
+    // (replay files written before the payload time field existed: give those events a constant `at`)
+    let ops: Vec<Op> = c
+        .ops
+        .iter()
+        .cloned()
+        .map(|op| match op {
+            Op::Store(mut ev) => {
+                if ev.vals.len() == 2 {
+                    ev.vals.push(json!(1_700_000_000i64));
+                }
+                Op::Store(ev)
+            }
+            o => o,
+        })
+        .collect();
+    for op in &ops {
         if let Err(e) = w.apply(op) {
             return problem_verdict(e, &mut w, rep);
         }
@@ -145,6 +169,9 @@ fn run_case(c: &Case, rep: &mut CaseReport) -> Verdict {
                 Err(e) => return problem_verdict(Problem::Db(e), &mut w, rep),
             };
             rep.sub_evals += 1;
+            if q.using_at {
+                rep.label("using-time-payload-field");
+            }
             if !r.panics.is_empty() {
                 return Verdict::fail("panic", json!({"cmd": text, "panics": r.panics, "log": w.db.log}));
             }
@@ -153,7 +180,8 @@ fn run_case(c: &Case, rep: &mut CaseReport) -> Verdict {
             let b_ok = |e: &MEv| e.ty == 1 && q.b_cond.as_ref().map(|p| e.vals[1].as_str() == Some(p.as_str())).unwrap_or(true);
             // a pv event and an oc event form a sequence when: same u, and oc at the same time or later
             // (FOLLOWED BY); for "oc PRECEDED BY pv": pv strictly earlier than oc.
-            let pair_ok = |pv: &MEv, oc: &MEv| pv.vals[0] == oc.vals[0] && if q.preceded { pv.secs.unwrap() < oc.secs.unwrap() } else { oc.secs.unwrap() >= pv.secs.unwrap() };
+            let time_of = |e: &MEv| -> i64 { if q.using_at { e.vals[2].as_i64().unwrap_or(0) } else { e.secs.unwrap() as i64 } };
+            let pair_ok = |pv: &MEv, oc: &MEv| pv.vals[0] == oc.vals[0] && if q.preceded { time_of(pv) < time_of(oc) } else { time_of(oc) >= time_of(pv) };
             // the "matched" side is the head of the query: pv for FOLLOWED BY, oc for PRECEDED BY
             let heads: Vec<&MEv> = w.model.events.iter().filter(|e| if q.preceded { b_ok(e) } else { a_ok(e) }).collect();
             let partners: Vec<&MEv> = w.model.events.iter().filter(|e| if q.preceded { a_ok(e) } else { b_ok(e) }).collect();
